@@ -1078,7 +1078,9 @@ func (in *Interp) conv(tDst, tSrc types.Type, x Value) Value {
 				}
 				return in.tc.BV(w, uint64(x))
 			case UnsafePtr:
-				panic(engineErr{"uintptr(unsafe.Pointer) unsupported"})
+				// uintptr(unsafe.Pointer(p)): kept opaque, only good for being
+				// handed to a modelled system call
+				return x
 			}
 		}
 		switch ut.Kind() {
@@ -1723,6 +1725,26 @@ func (in *Interp) chanRecv(c *Chan) (Value, bool) {
 			if in.schedOn() {
 				in.thread.trace.Events[len(in.thread.trace.Events)-1].Mode = "wait"
 			}
+			return nil, false
+		}
+	}
+	// cooperative scheduling of the sequential engine: the goroutines the code
+	// under test has spawned so far get to run (each to completion) when the
+	// main one would block; the receive is then retried once
+	if in.thread == nil && len(in.spawned) > 0 && in.cur != nil {
+		fr := in.cur
+		for len(in.spawned) > 0 {
+			s := in.spawned[0]
+			in.spawned = in.spawned[1:]
+			in.call(fr, fr.callPos, s.fn, s.args)
+		}
+		in.cur = fr
+		if len(c.Buf) > 0 {
+			v := c.Buf[0]
+			c.Buf = c.Buf[1:]
+			return v, true
+		}
+		if c.Closed {
 			return nil, false
 		}
 	}
